@@ -280,7 +280,7 @@ impl Family for Staleness {
         900
     }
     fn rule(&self) -> &'static str {
-        "graphs {chain Main->A->B, diamond Main->{A,B}->C, fan Main->{A,B}, triangle Main->{A,B} with B->A, and with A->B} x 18 kinds of interface-changing edit (fn added/removed/signature changed, struct field added after / before the others / retyped, enum variant added/payload changed, trait method added, impl added/removed, type renamed, generic parameter added, trait bound of a generic function added/removed/changed, bound of a method changed in the first / second of two inherent impls for two instances of one generic struct that give the method one name); each library has source variants {v0, body-only edit, interface-changing edit}; actions = edit(pkg,variant), check(pkg), build(pkg), tamper(pkg) (overwrite the dependency hashes at the top of a stale .core file with the current ones, as a user pasting the hash from the link error would), link; breadth-first search over all histories to depth 5 (quick) / 7 (thorough) with states deduplicated by (source variants, artifact file contents, the model's versions); every transition runs the real functions on real files. Reference model: symbolic interface versions (pkg, interface variant, versions of deps at build time). Oracle in every state: the dependency hashes a built/checked package records are those of the interface files it was built against; build/check succeed iff the model says the dependencies' interfaces exist; link succeeds iff every core exists and every recorded dependency version equals the version embedded in that dependency's core; a successful link prints the value denoted by the sources that were built; body-only edits leave the interface bytes unchanged and interface edits change the hash; chain and diamond x 4 kinds also with a Main that reads a field of a struct of a package it does not import, handed on by one it imports (refused by the type checker today; whenever it is built, the interface file of the indirect package is a version Main was built against and must be the linked one). non-trivial = states in which some package is stale; distinct = distinct states"
+        "graphs {chain Main->A->B, diamond Main->{A,B}->C, fan Main->{A,B}, triangle Main->{A,B} with B->A, and with A->B} x 18 kinds of interface-changing edit (fn added/removed/signature changed, struct field added after / before the others / retyped, enum variant added/payload changed, trait method added, impl added/removed, type renamed, generic parameter added, trait bound of a generic function added/removed/changed, bound of a method changed in the first / second of two inherent impls for two instances of one generic struct that give the method one name); each library has source variants {v0, body-only edit, interface-changing edit}; actions = edit(pkg,variant), check(pkg), build(pkg), tamper(pkg) (overwrite the dependency hashes at the top of a stale .core file with the current ones, as a user pasting the hash from the link error would), link; breadth-first search over all histories to depth 5 (quick) / 7 (thorough) with states deduplicated by (source variants, artifact file contents, the model's versions); every transition runs the real functions on real files. Reference model: symbolic interface versions (pkg, interface variant, versions of deps at build time). Oracle in every state: the dependency hashes a built/checked package records are those of the interface files it was built against; build/check succeed iff the model says the dependencies' interfaces exist; link succeeds iff every core exists and every recorded dependency version equals the version embedded in that dependency's core; a successful link prints the value denoted by the sources that were built; body-only edits leave the interface bytes unchanged and interface edits change the hash; crash points of a write of A's .interface / .core (every prefix on a grid of all cut points in the first and last 256 bytes and every 61st between; the first k bytes followed by the rest of the artifact of another version): refused, or exactly one of the two complete versions; chain and diamond x 4 kinds also with a Main that reads a field of a struct of a package it does not import, handed on by one it imports (refused by the type checker today; whenever it is built, the interface file of the indirect package is a version Main was built against and must be the linked one). non-trivial = states in which some package is stale; distinct = distinct states"
     }
     fn cases(&self, tier: Tier) -> Box<dyn Iterator<Item = Value> + '_> {
         let mut v = Vec::new();
@@ -816,6 +816,93 @@ fn corruption(case: &Value, ctx: &mut Ctx) -> Report {
                             site: format!("file={};field={}", target, top),
                             detail: format!("mutating {:?} of {} was accepted and changed the result", path, fname),
                             replay: json!({"kind": "corruption", "file": fname, "path": path, "mutated_leaf": leaf}),
+                        });
+                    }
+                }
+            }
+        }
+    }
+    // crash points of a write: every prefix of the file (all cut points in the first and last 256 bytes, every
+    // 61st in between), and a torn overwrite - the first k bytes of the file followed by the rest of another
+    // version of it (the artifact of the interface-changing variant), k on the same grid. The loader must
+    // refuse the file or read exactly one of the two complete versions.
+    {
+        let newer = &files[&fname];
+        let older: String = {
+            let w2 = World { g: graph(gname), kind: "fn-added", root: ctx.scratch.fresh_dir("corr-src2"), out: ctx.scratch.fresh_dir("corr-out2"), indirect: false };
+            let mut st2 = st.clone();
+            let ai = w2.idx(victim);
+            st2.variants[ai] = 2;
+            w2.restore(&st2);
+            // dependencies of the victim first
+            let mut text = String::new();
+            for i in (0..n).rev() {
+                let pkg = w2.pkg(i);
+                if let Ok(u) = build_package(inputs(&w2.root, &pkg, &w2.out)) {
+                    write_interface(&w2.out, &u.interface);
+                    let c = write_core(&w2.out, &u);
+                    if pkg.name == victim {
+                        text = if target == "interface" { serde_json::to_string_pretty(&u.interface).unwrap() } else { c };
+                    }
+                }
+            }
+            text
+        };
+        let grid = |len: usize| -> Vec<usize> { (0..len).filter(|k| *k < 256 || *k + 256 >= len || k % 61 == 0).collect() };
+        let mut torn: Vec<(String, String)> = Vec::new();
+        for k in grid(newer.len()) {
+            if newer.is_char_boundary(k) {
+                torn.push((format!("prefix-of-{}-bytes", k), newer[..k].to_string()));
+            }
+        }
+        if !older.is_empty() && older != *newer {
+            for k in grid(newer.len().min(older.len())) {
+                if newer.is_char_boundary(k) && older.is_char_boundary(k) {
+                    torn.push((format!("first-{}-bytes-then-the-other-version", k), format!("{}{}", &newer[..k], &older[k..])));
+                }
+            }
+        } else {
+            rep.tag("machinery:no-second-version-for-torn-writes");
+        }
+        let other_go: Option<String> = None;
+        let _ = other_go;
+        for (what, content) in torn {
+            count += 1;
+            std::fs::write(w.out.join(&fname), &content).unwrap();
+            let verdict: Result<String, String> = if target == "interface" {
+                let pkg = w.pkg(0);
+                match catch_unwind(AssertUnwindSafe(|| build_package(inputs(&w.root, &pkg, &w.out)))) {
+                    Ok(Ok(u)) => Ok(serde_json::to_string(&u.core_ir).unwrap()),
+                    Ok(Err(e)) => Err(format!("rejected: {}", describe_err(&e).1)),
+                    Err(p) => Err(format!("panic: {}", normalise_msg(&crate::oracle::panic_message(p)))),
+                }
+            } else {
+                link_all(&w.out, &w.g)
+            };
+            match verdict {
+                Err(m) if m.starts_with("panic") => {
+                    if reported.insert(format!("torn-panic:{}", m)) {
+                        for p in ["C15", "C04"] {
+                            rep.findings.push(Finding { property: p, class: "artifact.panic".into(), site: format!("file={};torn-write;msg={}", target, m), detail: format!("{}: {}", what, m), replay: json!({"kind": "corruption", "file": fname, "torn": what, "content": content}) });
+                        }
+                    }
+                }
+                Err(_) => {
+                    rejected += 1;
+                    rep.tag("torn-write:rejected");
+                }
+                Ok(_) => {
+                    // accepted: the content must be one of the two complete versions
+                    if content == *newer || content == older {
+                        harmless += 1;
+                        rep.tag("torn-write:a-complete-version");
+                    } else if reported.insert("torn-accepted".to_string()) {
+                        rep.findings.push(Finding {
+                            property: "C15",
+                            class: "artifact.torn-file-accepted".into(),
+                            site: format!("file={};torn-write", target),
+                            detail: format!("{} of {} was accepted", what, fname),
+                            replay: json!({"kind": "corruption", "file": fname, "torn": what, "content": content}),
                         });
                     }
                 }
